@@ -2,6 +2,7 @@
 
 use crate::evidence::Ctx;
 
+pub mod c05;
 pub mod c09;
 pub mod cluster_props;
 pub mod pool_props;
@@ -21,6 +22,7 @@ pub fn run(ctx: &mut Ctx) -> Result<(), String> {
         "C02" => cluster_props::run_c02(ctx),
         "C03" => pool_props::run(ctx, "C03", 480, 40_000),
         "C04" => pool_props::run(ctx, "C04", 480, 40_000),
+        "C05" => c05::run(ctx),
         "C06" => pool_props::run(ctx, "C06", 480, 40_000),
         "C07" => pool_props::run(ctx, "C07", 480, 40_000),
         "C08" => pool_props::run(ctx, "C08", 480, 40_000),
